@@ -124,6 +124,10 @@ func (P *Prog) VerifyFunc(f *ssa.Function, c *Contract) *Trans {
 	for _, rv := range c.Extra["reveal"] {
 		t.assume("true", revealInstance(sc0, rv))
 	}
+	// case-split hints for the solver driver (no logical content: the cases are exhaustive)
+	for _, x := range c.Extra["split"] {
+		t.splitTerms = append(t.splitTerms, sc0.expandBool(x)) // one Boolean term per "extra split" clause
+	}
 	// vacuity guard: the preconditions are satisfiable
 	cov := t.oblige("cover", fr.path+"#cover.requires", fr.tags, "true", "true", f.Pos(), "preconditions are satisfiable (vacuity guard)")
 	cov.Expect = "sat"
